@@ -42,7 +42,7 @@ def _jsonable(o):
 def write_evidence(pid, mod, tier, seed, summ, unknown, known_hits):
     cov = dict(
         evaluations=summ["n"],
-        distinct_nontrivial=min(summ["nontrivial"], len(summ["states"])),
+        distinct_nontrivial=len(summ["nt_states"]),
         rule=getattr(mod, "RULE", ""),
         samples=summ["samples"] or [],
         states=len(summ["states"]),
